@@ -244,6 +244,15 @@ class FastParetoOptimalAlgorithm(BaseParetoOptimalAlgorithm):
     ascending_indices = (points[:, 0]).argsort()
     sorted_points = points[ascending_indices]
     split_index = round(len(points) / 2)
+    # Points tied in the first coordinate must land in the same half: points of
+    # the higher half are never compared against the lower half.
+    split_index = np.searchsorted(
+        sorted_points[:, 0], sorted_points[split_index][0], side='left'
+    )
+    if split_index == 0:
+      # The whole lower half ties with the split value; cannot split.
+      return np.array(
+          self._base_algorithm.is_pareto_optimal(points), dtype=bool)
 
     # Recurse on both subarrays and check for cross domination.
     lower_array = sorted_points[:split_index]
